@@ -13,6 +13,26 @@ from octoprint_excluderegion.GcodeParser import GcodeParser
 LOG = logging.getLogger('verif.impl'); LOG.addHandler(logging.NullHandler()); LOG.propagate = False
 LOG.setLevel(logging.CRITICAL)
 
+
+class _Format(logging.Handler):
+    """formats every record and throws the text away; like the standard handlers it never lets a formatting error escape"""
+    def emit(self, record):
+        try:
+            record.getMessage()
+        except Exception:
+            pass
+
+
+LOG_DEBUG = logging.getLogger('verif.impl.debug'); LOG_DEBUG.addHandler(_Format()); LOG_DEBUG.propagate = False
+LOG_DEBUG.setLevel(logging.DEBUG)
+_instances = [0]
+
+
+def pick_logger():
+    """every fifth instance runs with debug logging on: the code inside `if isDebug` blocks is part of the filter too"""
+    _instances[0] += 1
+    return LOG_DEBUG if _instances[0] % 5 == 0 else LOG
+
 def mk_region(r):
     """r = ('rect', id, x1, y1, x2, y2) | ('circ', id, cx, cy, r)"""
     if r[0] == 'rect':
@@ -23,7 +43,8 @@ DEFAULT_AT = [("ExcludeRegion", "^\\s*(enable|on)(\\s|$)", "enable_exclusion"),
               ("ExcludeRegion", "^\\s*(disable|off)(\\s|$)", "disable_exclusion")]
 
 def new_handlers(regions=(), g90e=False, enter=None, exit_=None, ext=None, at=None):
-    st = ExcludeRegionState(LOG)
+    log = pick_logger()
+    st = ExcludeRegionState(log)
     st.g90InfluencesExtruder = g90e
     st.enteringExcludedRegionGcode = list(enter) if enter else None
     st.exitingExcludedRegionGcode = list(exit_) if exit_ else None
@@ -34,7 +55,7 @@ def new_handlers(regions=(), g90e=False, enter=None, exit_=None, ext=None, at=No
     st.atCommandActions = acts
     for r in regions:
         st.addRegion(mk_region(r))
-    return GcodeHandlers(st, LOG)
+    return GcodeHandlers(st, log)
 
 _CODE = re.compile(r'^\s*([GMT]\d+)(?:\.(\d+))?')  # as octoprint.util.comm.gcode_and_subcode_for_cmd
 def code_of(cmd, normalise=False):      # the host passes the code as written (OctoPrint: "G01" stays "G01")
